@@ -93,6 +93,11 @@ func alphabet() []piece {
 		{Group: "hostname", Name: "hostn", Prog: []*N{Expr(Id("hostn"))}},
 		{Group: "hostname", Name: "func rh;rh()", Prog: []*N{FuncDecl("rh", nil, Set1("hostn", Bin("+", Id("hostn"), Int(100))), Return(Id("hostn"))), Expr(call("rh"))}},
 		{Group: "hostname", Name: "rh()", Prog: []*N{Expr(call("rh"))}},
+		// a piece that fails before a later declaration of the same piece ran: the name is known, it has no value
+		{Group: "afterfail", Name: "fail;late:=3", Prog: []*N{Var("q", Index(List(Int(1)), Int(5))), Var("late", Int(3))}},
+		{Group: "afterfail", Name: "late", Prog: []*N{Expr(Id("late"))}},
+		{Group: "afterfail", Name: "[late,x]", Prog: []*N{Expr(List(Id("late"), Id("x")))}},
+		{Group: "afterfail", Name: "late=4;late", Prog: []*N{Set1("late", Int(4)), Expr(Id("late"))}},
 		{Group: "overflow", Name: "overflow", Prog: []*N{FuncDecl("deep", P("n"), Return(Bin("+", Int(1), call("deep", Bin("+", Id("n"), Int(1)))))), Expr(call("deep", Int(0)))}},
 	}
 }
